@@ -30,6 +30,7 @@ import (
 	"math/rand"
 	"reflect"
 	"sort"
+	"strings"
 	"time"
 
 	"github.com/parquet-go/parquet-go"
@@ -425,6 +426,7 @@ func checkLife(lc *dictLifeCase) (bad string) {
 			return fmt.Sprintf("NewDictionary over %d values: Index(%d) = %s, created with %s", len(lc.Pre), i, showValue(got), showValue(k.val(key)))
 		}
 	}
+	inserted := false
 	for oi, op := range lc.Ops {
 		at := fmt.Sprintf("call %d", oi+1)
 		if op.Reset {
@@ -454,6 +456,26 @@ func checkLife(lc *dictLifeCase) (bad string) {
 				indexes[i] = 0 // the NULL dictionary assigns no index
 			}
 		}
+		if len(values) == 0 && len(lc.Pre) > 0 && !inserted {
+			// the lookup table of a dictionary created over values is built by
+			// its first Insert, with the caller's indexes as scratch space: an
+			// Insert of nothing must return (run under a watchdog, once per kind)
+			hung, seen := hangs[lc.Kind]
+			if !seen {
+				done := make(chan string, 1)
+				go func() { done <- safely(func() { d.Insert(indexes[:0], values) }) }()
+				select {
+				case <-done:
+				case <-time.After(2 * time.Second):
+					hung = true
+				}
+				hangs[lc.Kind] = hung
+			}
+			if hung {
+				return "HANG: " + at + " as the first Insert into a dictionary created over values does not return"
+			}
+		}
+		inserted = true
 		if p := safely(func() { d.Insert(indexes[:len(values)], values) }); p != "" {
 			return at + " panicked: " + core.Trunc(p, 200)
 		}
@@ -537,6 +559,9 @@ func checkLife(lc *dictLifeCase) (bad string) {
 	return ""
 }
 
+// kinds whose Insert of nothing was seen not to return (see checkLife)
+var hangs = map[string]bool{}
+
 func checkBounds(t parquet.Type, values []parquet.Value, lo, hi parquet.Value) string {
 	if len(values) == 0 {
 		if !lo.IsNull() || !hi.IsNull() {
@@ -581,7 +606,9 @@ func (k *checker) checkLifeCase(lc *dictLifeCase) {
 	if p := safely(func() { bad = checkLife(lc) }); p != "" {
 		bad = "panic: " + core.Trunc(p, 200)
 	}
-	if bad != "" {
+	if strings.HasPrefix(bad, "HANG: ") {
+		k.viol("dict-life-hang", "Dictionary ("+lc.Kind+") "+lifeHistory(lc)+": "+bad[6:])
+	} else if bad != "" {
 		k.viol("dict-life", "Dictionary ("+lc.Kind+") "+lifeHistory(lc)+": "+bad)
 	}
 }
